@@ -887,7 +887,7 @@ class XMLConverter(PDFConverter[AnyIO]):
                     name = self.imagewriter.export_image(item)
                     self.write(
                         '<image src="%s" width="%d" height="%d" />\n'
-                        % (enc(name), item.width, item.height),
+                        % (self.enc_attr(name), item.width, item.height),
                     )
                 else:
                     self.write(
